@@ -202,6 +202,19 @@ def scalarsUncondB (P : ParDo) (σ : Store) : Bool :=
   (List.range (P.trips σ)).all fun k => (P.iterFp σ k).1.all fun l =>
     l == (P.v, 0, 0) || !P.privs.contains l.1
 
+/-! ## the hypotheses as propositions -/
+
+/-- pairwise Bernstein independence of the iterations on shared locations (element level,
+dynamic footprints at the store on loop entry) -/
+def IterIndep (P : ParDo) (σ : Store) : Prop :=
+  ∀ k < P.trips σ, ∀ k' < P.trips σ, k ≠ k' → ∀ l ∈ (P.iterFp σ k).2, l.1 ∉ P.privs →
+    l ∉ (P.iterFp σ k').1 ∧ l ∉ (P.iterFp σ k').2
+
+/-- no iteration reads a privatised variable (other than the parallel loop's own variable)
+before it has written it -/
+def ScalarsUnconditional (P : ParDo) (σ : Store) : Prop :=
+  ∀ k < P.trips σ, ∀ l ∈ (P.iterFp σ k).1, l = (P.v, 0, 0) ∨ l.1 ∉ P.privs
+
 /-! ## `infer_sharing_attributes` -/
 
 /-- state of the scan of one scalar's accesses, in the order of `reference_accesses` -/
@@ -308,5 +321,106 @@ def validateScalars (L : Stmt) : Bool :=
 def annotate (v : Nat) (lo hi step : Expr) (body : Stmt) : ParDo :=
   let sh := inferSharing (.loop v lo hi step body)
   ⟨v, lo, hi, step, body, sh.priv, sh.fpriv⟩
+
+/-! ## static sufficient conditions for the two hypotheses (no store needed) -/
+
+/-- `e` is syntactically `v + c` -/
+def affOff (v : Nat) : Expr → Option Int
+  | .var x => if x = v then some 0 else none
+  | .bin .add (.var x) (.lit c) => if x = v then some c else none
+  | .bin .add (.lit c) (.var x) => if x = v then some c else none
+  | .bin .sub (.var x) (.lit c) => if x = v then some (-c) else none
+  | _ => none
+
+/-- array ↦ (subscript position 0/1, offset): the subscript that must be `v + offset` in EVERY access -/
+abbrev Spec := List (Nat × Nat × Int)
+
+/-- the specification read off the array writes of the body (first write of each array wins) -/
+def specOfStmt (v : Nat) : Stmt → Spec
+  | .skip => []
+  | .seq a b => specOfStmt v a ++ specOfStmt v b
+  | .assign _ _ => []
+  | .store1 a i _ =>
+    match affOff v i with
+    | some c => [(a, 0, c)]
+    | none => []
+  | .store2 a i j _ =>
+    match affOff v i with
+    | some c => [(a, 0, c)]
+    | none =>
+      match affOff v j with
+      | some c => [(a, 1, c)]
+      | none => []
+  | .ite _ t f => specOfStmt v t ++ specOfStmt v f
+  | .loop _ _ _ _ b => specOfStmt v b
+
+/-- subscript check of one access to array `a` -/
+def subOK (v : Nat) (spec : Spec) (a : Nat) (i : Expr) (j : Option Expr) : Option Bool :=
+  match spec.lookup a with
+  | none => none
+  | some (p, c) =>
+    if p = 0 then some (affOff v i == some c)
+    else match j with
+      | some j => some (affOff v j == some c)
+      | none => some false
+
+/-- every read of an array in `spec` has the distinguished subscript `v + offset`; no scalar is named like such an array -/
+def okExpr (v : Nat) (spec : Spec) : Expr → Bool
+  | .lit _ => true
+  | .var x => (spec.lookup x).isNone
+  | .idx1 a i => okExpr v spec i && (subOK v spec a i none).getD true
+  | .idx2 a i j => okExpr v spec i && okExpr v spec j && (subOK v spec a i (some j)).getD true
+  | .un _ e => okExpr v spec e
+  | .bin _ a b => okExpr v spec a && okExpr v spec b
+
+/-- every written scalar is privatised and is not `v`; every array write has the distinguished
+subscript `v + offset` of its array; all reads conform -/
+def okStmt (v : Nat) (privs : List Nat) (spec : Spec) : Stmt → Bool
+  | .skip => true
+  | .seq a b => okStmt v privs spec a && okStmt v privs spec b
+  | .assign x e => x != v && privs.contains x && okExpr v spec e
+  | .store1 a i e => a != v && okExpr v spec i && okExpr v spec e && (subOK v spec a i none).getD false
+  | .store2 a i j e =>
+    a != v && okExpr v spec i && okExpr v spec j && okExpr v spec e && (subOK v spec a i (some j)).getD false
+  | .ite c t f => okExpr v spec c && okStmt v privs spec t && okStmt v privs spec f
+  | .loop w lo hi st b =>
+    w != v && privs.contains w && okExpr v spec lo && okExpr v spec hi && okExpr v spec st && okStmt v privs spec b
+
+/-- **static independence**: distance 0 in the parallel variable for every written array
+(a fixed subscript position holds `v + c` in every access), scalars written only if privatised -/
+def staticIndepB (P : ParDo) : Bool := okStmt P.v P.privs (specOfStmt P.v P.body) P.body
+
+/-- reads of privatised variables are allowed only for scalars in `D` (already written) -/
+def readsOK (X D : List Nat) : Expr → Bool
+  | .lit _ => true
+  | .var x => !X.contains x || D.contains x
+  | .idx1 a i => !X.contains a && readsOK X D i
+  | .idx2 a i j => !X.contains a && readsOK X D i && readsOK X D j
+  | .un _ e => readsOK X D e
+  | .bin _ a b => readsOK X D a && readsOK X D b
+
+/-- definite assignment: `none` if a privatised variable may be read before it is written on
+some path; otherwise the scalars certainly written afterwards -/
+def defAssign (X : List Nat) : Stmt → List Nat → Option (List Nat)
+  | .skip, D => some D
+  | .seq a b, D => (defAssign X a D).bind (defAssign X b)
+  | .assign x e, D => if readsOK X D e then some (x :: D) else none
+  | .store1 _ i e, D => if readsOK X D i && readsOK X D e then some D else none
+  | .store2 _ i j e, D => if readsOK X D i && readsOK X D j && readsOK X D e then some D else none
+  | .ite c t f, D =>
+    if readsOK X D c then
+      match defAssign X t D, defAssign X f D with
+      | some Dt, some Df => some (Dt.filter fun x => Df.contains x)
+      | _, _ => none
+    else none
+  | .loop w lo hi st b, D =>
+    if readsOK X D lo && readsOK X D hi && readsOK X D st then
+      match defAssign X b (w :: D) with
+      | some _ => some (w :: D)
+      | none => none
+    else none
+
+/-- **static write-before-read** of the privatised variables in every iteration -/
+def staticUncondB (P : ParDo) : Bool := (defAssign P.privs P.body [P.v]).isSome
 
 end C09
